@@ -4,10 +4,10 @@
 #   output: /verif/seeded/<Cxx>/{patch.diff, demo files, meta.json}   (kept only if everything is confirmed)
 # steps : (1) patch applies to /repo HEAD  (2) in the agent's worktree: suite passes with the patch (257),
 #         demo fails with the patch, demo passes without  (3) quick check of <Cxx> in a scratch worktree with the patch
-id=$1; wt=${2:-/tmp/seedwt/$id}; src=/tmp/seed_out/$id; dst=/verif/seeded/$id
+name=$1; id=${name:0:3}; wt=${2:-/tmp/seedwt/$name}; src=/tmp/seed_out/$name; dst=/verif/seeded/$name
 [ -f $src/patch.diff ] || { echo "$id: no patch.diff"; exit 2; }
 git -C /repo apply --check $src/patch.diff || { echo "$id: patch does not apply to /repo HEAD"; exit 2; }
-log=/tmp/seed_out/$id/eval.log; : > $log
+log=$src/eval.log; : > $log
 cd $wt || exit 2
 # make sure the worktree holds exactly the patch
 git checkout -q -- . && git apply $src/patch.diff || { echo "$id: cannot apply patch in worktree"; exit 2; }
@@ -40,15 +40,15 @@ echo "$out" | tail -4 >> $log
 rm -rf found/$id
 if [ "$pass" = "257" ] && [ "$fail" = "0" ] && [ "$demo_with" != "0" ] && [ "$demo_without" = "0" ]; then
   mkdir -p $dst; cp $src/patch.diff $dst/; for f in $src/*; do case $(basename $f) in patch.diff|eval.log|suite_with_patch.log|*.prompt.txt) ;; *) [ -f $f ] && [ $(stat -c %s $f) -lt 200000 ] && cp $f $dst/ ;; esac; done
-  SEED_FLAKE="$flake" python3 - "$id" "$verdict" "$first" "$pass" "$demo_with" "$demo_without" <<'PY'
+  SEED_FLAKE="$flake" python3 - "$id" "$name" "$verdict" "$first" "$pass" "$demo_with" "$demo_without" <<'PY'
 import json,sys,subprocess
-id,verdict,first,p,dw,dwo=sys.argv[1:7]
-notes=open(f'/tmp/seed_out/{id}/notes.md').read() if __import__('os').path.exists(f'/tmp/seed_out/{id}/notes.md') else ''
-meta={'property':id,'origin':'fresh sub-agent given only the property text and a scratch worktree','what_it_needs_to_manifest':'see notes.md',
+id,name,verdict,first,p,dw,dwo=sys.argv[1:8]
+notes=''
+meta={'property':id,'dir':name,'origin':'fresh sub-agent given only the property text and a scratch worktree','what_it_needs_to_manifest':'see notes.md',
  'confirmed':{'patch_applies_to_repo_head':True,'suite_with_patch':f'{p} passed, 0 failed' + (' (tests that failed only in the loaded parallel run and passed 3/3 alone: ' + __import__('os').environ.get('SEED_FLAKE','') + ')' if __import__('os').environ.get('SEED_FLAKE') else ''),'demo_exit_with_patch':int(dw),'demo_exit_without_patch':int(dwo)},
- 'commands':[f'git -C <worktree> apply patch.diff; make -j8; make -j8 check',f'./run_demo.sh <worktree>   (with and without the patch)',f'bin/with_patch.sh seeded/{id}/patch.diff bin/check {id}'],
+ 'commands':[f'git -C <worktree> apply patch.diff; make -j8; make -j8 check',f'./run_demo.sh <worktree>   (with and without the patch)',f'bin/with_patch.sh seeded/{name}/patch.diff bin/check {id}'],
  'check_result':verdict,'first_violation':first,'repo_head':subprocess.run(['git','-C','/repo','rev-parse','--short','HEAD'],stdout=subprocess.PIPE).stdout.decode().strip()}
-json.dump(meta,open(f'/verif/seeded/{id}/meta.json','w'),indent=1)
+json.dump(meta,open(f'/verif/seeded/{name}/meta.json','w'),indent=1)
 PY
   echo "$id: kept in $dst"
 else
